@@ -2000,6 +2000,10 @@ class InColumnGroupPhase(Phase):
         self.endTagColgroup(impliedTagToken("colgroup"))
         if not ignoreEndTag:
             return token
+        # innerHTML case: only the non-space characters are ignored
+        data = "".join([c for c in token["data"] if c in spaceCharacters])
+        if data:
+            self.tree.insertText(data)
 
     def startTagCol(self, token):
         self.tree.insertElement(token)
